@@ -85,7 +85,7 @@ func (e *Env) livenessClass(s *State, v, d int, res string) string {
 		if e.Mon.ValueChanged {
 			return "pool_short_after_value_change" // D6: entitlements follow CURRENT token values
 		}
-		if precisionStressed(s) || e.precisionShortfall(s, lastDetail) {
+		if precisionStressed(s) || e.precisionShortfall(s, lastDetail) || e.roundShortfall(s, lastDetail, map[string]*big.Int{}) {
 			return "pool_short_large_stake" // 18-digit share ratios / indices out of resolution
 		}
 		return "pool_short"
@@ -427,7 +427,8 @@ func (e *Env) precisionShortfall(s *State, detail string) bool {
 }
 
 // roundShortfall: in a claim-all round the pool ends short by no more than the resolution bound times everything paid
-// out in that denom during the round (an over-entitled large claim earlier in the round starves a small one later)
+// out in that denom during the round and before it in the history (an over-entitled large claim earlier starves a small
+// one later)
 func (e *Env) roundShortfall(s *State, detail string, paid map[string]*big.Int) bool {
 	m := reShortDenom.FindStringSubmatch(detail)
 	if m == nil {
@@ -437,6 +438,11 @@ func (e *Env) roundShortfall(s *State, detail string, paid map[string]*big.Int) 
 	vol := new(big.Int).Set(want)
 	if paid[dn] != nil {
 		vol.Add(vol, paid[dn])
+	}
+	// … and everything the pool paid out in that denom in REAL claims earlier in the history: the over-entitled claim need
+	// not be part of this round
+	if x := e.Mon.PoolOut[dn]; x != nil {
+		vol.Add(vol, x)
 	}
 	bound := resolutionBound(s)
 	if e.Mon.MaxResolution != nil && e.Mon.MaxResolution.Cmp(bound) > 0 {
